@@ -1306,8 +1306,13 @@ class App(falcon.app.App):
                 await err_handler(req, resp, ex, params, **kwargs)
 
             except HTTPStatus as status:
+                if resp:
+                    # NOTE: Discard whatever the handler itself had set so far.
+                    resp.text = resp.data = resp.media = None
                 await self._http_status_handler(req, resp, status, params, ws=ws)
             except HTTPError as error:
+                if resp:
+                    resp.text = resp.data = resp.media = None
                 await self._http_error_handler(req, resp, error, params, ws=ws)
 
             return True
